@@ -127,15 +127,19 @@ def extract(repo=REPO, force=False, want_bin=False):
         lock.close()
 
 
-def _prune(keep, maxn=6):
-    """Keep the cache small (disk is limited): newest `maxn` trees only."""
+def _prune(keep, maxn=12, min_age_s=3600):
+    """Keep the cache small (disk is limited; a tree is ~21 MB): the newest `maxn` trees, and never one younger than an hour -
+    another check process may have extracted it a moment ago and not have read it yet."""
     ents = []
     for n in os.listdir(CACHE):
         p = os.path.join(CACHE, n)
         if os.path.isdir(p) and n != keep:
             ents.append((os.path.getmtime(p), p, n))
     ents.sort(reverse=True)
-    for _, p, n in ents[maxn - 1:]:
+    now = time.time()
+    for mt, p, n in ents[maxn - 1:]:
+        if now - mt < min_age_s:
+            continue
         shutil.rmtree(p, ignore_errors=True)
         try:
             os.remove(os.path.join(CACHE, n + ".lock"))
